@@ -1,6 +1,6 @@
 """Running one library operation under the seams, with its planned faults."""
 
-from .seams import SimInterrupt
+from .seams import OpTimeout, SimInterrupt
 
 EXC = {"SimInterrupt": SimInterrupt, "MemoryError": MemoryError}
 
@@ -30,13 +30,20 @@ def run_op(ctx, real_fn, faults=None, twin_fn=None, rep=None):
     draw, intr = split_faults(faults, rep)
     line_events = 0
     at = None
+    skipped_interrupt = False
     if intr is not None and "at_line" in intr:
         at = int(intr["at_line"])  # absolute position: fires if the operation gets that far
     elif intr is not None and twin_fn is not None:
         st = seam.get_state()
         es = seam.entropy_seed
         seam.begin_op(draw)
-        ok_t, v_t, L, _ = tracer.run(twin_fn)
+        try:
+            ok_t, v_t, L, _ = tracer.run(twin_fn)
+        except OpTimeout:
+            # the operation is too long to be measured line by line (deterministically so: the cap counts line events):
+            # the planned interrupt is dropped and the operation runs untraced
+            L = 0
+            skipped_interrupt = True
         seam.end_op()
         seam.set_state(st)
         seam.entropy_seed = es
@@ -58,5 +65,5 @@ def run_op(ctx, real_fn, faults=None, twin_fn=None, rep=None):
     seam.begin_op([])  # oracle-side library calls must never see the operation's plan
     return {
         "ok": ok, "value": v, "draws": info["draws"], "fired": info["fired"], "log": info["log"],
-        "interrupted": bool(fired), "line_events": line_events,
+        "interrupted": bool(fired), "line_events": line_events, "skipped_interrupt": skipped_interrupt,
     }
